@@ -71,17 +71,17 @@ var propSpecs = map[string]PropSpec{
 	"C08": {Profile: Profile{MaxCap: 6, MaxOps: 24, Backends: bothBackends, Rejects: 200, ObsReload: true, DetBias: 350, FailReaders: true, Foreign: 150},
 		Kinds: kinds("rl", "hdr", "obj", "shape"), Cases: [2]int{500, 8000}, Oracles: []string{"C08"},
 		Corr: "corr.C08.handle_vs_reload (view incl. integrity streams, handle and reload, every step)"},
-	"C11": {Profile: Profile{MaxCap: 10, MaxOps: 10, BigData: true, Backends: bothBackends, Rejects: 40, ObsReload: true, DetBias: 300, Foreign: 450, BadMagic: 300},
+	"C11": {Profile: Profile{MaxCap: 10, MaxOps: 10, BigData: true, Backends: bothBackends, Rejects: 40, ObsReload: true, DetBias: 300, Foreign: 450, BadMagic: 300, Faults: true},
 		Kinds: kinds("file", "rl", "hdr", "obj", "res", "shape"), Cases: [2]int{400, 8000}, Oracles: []string{"C11"}, Shipped: true,
 		Corr: "corr.C11.layout (Lean encoder = library writer, byte for byte; Lean decoder = library reader)"},
 	"C12": {Profile: Profile{MaxCap: 8, MaxOps: 14, Backends: bothBackends, Rejects: 100, DetBias: 800, Sign: 120},
 		Kinds: kinds("file", "hdr", "obj", "sg", "md", "shape"), Cases: [2]int{250, 4000}, TwoRuns: true,
 		Corr: "corr.C12.bytes (model bytes with explicit clock parameter = library bytes)"},
-	"C13": {Profile: Profile{MaxCap: 6, MaxOps: 12, Queries: 14, Backends: []string{"buf"}, Rejects: 60, DetBias: 900, Foreign: 150, TornHeader: true},
+	"C13": {Profile: Profile{MaxCap: 6, MaxOps: 12, Queries: 14, Backends: []string{"buf"}, Rejects: 60, DetBias: 900, Foreign: 150, TornHeader: true, Faults: true},
 		Kinds: kinds("q", "shape"), Cases: [2]int{400, 8000}, Oracles: []string{"C13"},
 		Corr: "corr.C13.queries (GetDescriptors/GetDescriptor results for every selector tuple)"},
-	"C09": {Profile: Profile{MaxCap: 6, MaxOps: 10, BigData: true, Backends: bothBackends, Rejects: 60, DetBias: 600, FailReaders: true, Sign: 100, Foreign: 120, TornHeader: true},
-		Kinds: kinds("res", "io", "file", "shape"), Cases: [2]int{220, 4000}, Oracles: []string{"C09"},
+	"C09": {Profile: Profile{MaxCap: 6, MaxOps: 10, BigData: true, Backends: bothBackends, Rejects: 60, DetBias: 600, FailReaders: true, Sign: 100, Foreign: 120, TornHeader: true, Faults: true},
+		Kinds: kinds("res", "io", "file", "shape", "hdr", "obj"), Cases: [2]int{220, 4000}, Oracles: []string{"C09"},
 		Corr: "corr.C09.io_plan (the mutating calls each operation issues = the model's plan, call for call; bytes after every step)"},
 	"C15": {Profile: Profile{MaxOps: 12, Cli: true},
 		Kinds: kinds("cli", "hdr", "obj", "file", "shape"), Cases: [2]int{160, 3000}, Oracles: []string{"C15"},
@@ -156,7 +156,7 @@ func runHistory(dir string, seed uint64, spec PropSpec, shipped string) (*Case, 
 	if forceBackend != "" {
 		g.p.Backends = []string{forceBackend}
 	}
-	e := &Env{dir: dir, stats: g.stats}
+	e := &Env{dir: dir, stats: g.stats, faultCtl: spec.Profile.Faults}
 	defer e.Close()
 	c := &Case{Seed: seed}
 	var vs []*Violation
@@ -212,7 +212,10 @@ func runHistory(dir string, seed uint64, spec PropSpec, shipped string) (*Case, 
 		return obs
 	}
 	truncated := false // once the file has been cut short the placement invariant is not expected to hold
-	obsOp := func() *Op { return &Op{Kind: "obs", Reload: spec.Profile.ObsReload, Inv: !truncated} }
+	faulted := false   // … nor once a store failure left handle and file apart
+	obsOp := func() *Op {
+		return &Op{Kind: "obs", Reload: spec.Profile.ObsReload, Inv: !truncated && !faulted}
+	}
 	if spec.Profile.Cli {
 		// C15: a history of siftool invocations on one image file
 		if r.Chance(1, 8) {
@@ -354,7 +357,27 @@ func runHistory(dir string, seed uint64, spec PropSpec, shipped string) (*Case, 
 				hdr0 = append([]byte(nil), b[:128]...)
 			}
 		}
+		if spec.Profile.Faults && isMutator(op.Kind) && e.ctl != nil && !truncated && r.Chance(1, 8) {
+			// the backing store fails one of this operation's calls (chosen among those a dry run on
+			// a copy shows it issues); the history goes on with the same handle
+			if evs := e.dryRunCalls(op); len(evs) > 0 {
+				var ks []int
+				for k, ev := range evs {
+					if !(ev.Kind == "write" && len(ev.P) == 0) {
+						ks = append(ks, k+1)
+					}
+				}
+				if len(ks) > 0 {
+					op.FaultAt = pick(r, ks)
+					op.FaultShort = evs[op.FaultAt-1].Kind == "write" && len(evs[op.FaultAt-1].P) >= 2 && r.Chance(1, 3)
+					g.count("op:store-fails-a-" + evs[op.FaultAt-1].Kind + "-call-of-" + op.Kind)
+				}
+			}
+		}
 		obs := emit(op)
+		if op.Fault != "" {
+			faulted = true
+		}
 		if hdr0 != nil && e.f != nil && len(obs) > 0 && obs[0] == "res ok" && r.Chance(1, 5) {
 			// the add was interrupted between its descriptor-table write and its header write, and
 			// the image was opened again: new table, old header (stale counters and data size)
@@ -517,6 +540,16 @@ func histCampaign(prop, tier string, seed uint64, scratch string) *Result {
 		m, unrel := relevantMismatch(c, model, spec.Kinds)
 		res.Unrelated += unrel
 		if m != nil {
+			if dbg := os.Getenv("FAULT_DEBUG"); dbg != "" {
+				if fh, err := os.OpenFile(dbg, os.O_APPEND|os.O_CREATE|os.O_WRONLY, 0o644); err == nil {
+					lo := m.Line - 6
+					if lo < 0 {
+						lo = 0
+					}
+					fmt.Fprintf(fh, "MISMATCH seed=%d line=%d\n impl : %s\n model: %s\n proto: %v\n", cs, m.Line, m.Impl, m.Model, c.Proto[len(c.Proto)-min(len(c.Proto), 8):])
+					fh.Close()
+				}
+			}
 			res.Breaks = append(res.Breaks, &CorrBreak{Seed: cs, M: *m, Ops: c.Ops, Fields: diffFields(m.Impl, m.Model)})
 		}
 		if spec.TwoRuns || spec.Backends {
